@@ -176,6 +176,13 @@ func (rb *ResponseBuffer) WriteHeader(status int) {
 	if rb.wroteHeader {
 		return
 	}
+	// an informational header (1xx, except 101) is not the response
+	// header: it is sent at once, the decision to buffer waits for
+	// the response header proper
+	if status >= 100 && status <= 199 && status != http.StatusSwitchingProtocols {
+		rb.ResponseWriterWrapper.WriteHeader(status)
+		return
+	}
 	rb.wroteHeader = true
 
 	rb.status = status
